@@ -599,7 +599,7 @@ func (g *ProgGen) Gen() *Program {
 		}
 		body = append(pre, body...)
 		p.Bundle[name] = &Tmpl{Params: ps, Body: body, NsA: nsAttr[Namespace(name)],
-			TA: []string{"", "", "", "true", "false", "contextual"}[g.pick(6)], Hdr: g.pick(4) == 0, HdrDefault: hdrDefault}
+			TA: []string{"", "", "", "true", "false", "contextual"}[g.pick(6)], Hdr: g.pick(4) == 0, HdrDefault: hdrDefault, Sp: g.pick(20)}
 	}
 	p.Entry = g.tmplNames[nt-1]
 	p.Data = map[string]V{}
